@@ -29,7 +29,7 @@ func runFree(base string, seed int64, idx int) (res *seqResult) {
 	}
 	defer os.RemoveAll(base)
 	rnd := rand.New(rand.NewSource(seed*1000003 + int64(idx)*104729 + 77))
-	w, err := newWorld(base)
+	w, err := newWorld(base, false)
 	if err != nil {
 		res.Fatal = "harness: " + err.Error()
 		return res
